@@ -21,17 +21,20 @@ What is proved here (for all tables, all words):
   (`stabilizer_relators_hold`);
 * totality: the three models return a result on every valid input — no modelled panic, no
   exhausted fuel (`stabilizer_total`, `intersection_total`, `core_total`).
-Not proved (Spec only, see conf/C13.json): injectivity of the map from the returned presentation
-onto the stabiliser (the Reidemeister–Schreier theorem for the code's relator-driven
-elimination), i.e. the word "isomorphic".
+* the map from the returned presentation onto the stabiliser is injective
+  (`stabilizer_presentation_iso`): the presented group **is isomorphic** to the stabiliser.
+Everything the property states is thereby proved for the models; the tie to the Rust code is
+the differential comparison of every run.
 -/
 import DSymVerif.Model.Stabilizer
 import DSymVerif.Proofs.StabilizerProduct
 import DSymVerif.Proofs.StabilizerGens
 import DSymVerif.Proofs.StabilizerCore
+import DSymVerif.Proofs.StabilizerWords
 import DSymVerif.Proofs.StabilizerTotal
 import DSymVerif.Proofs.StabilizerPresentation
 import DSymVerif.Proofs.StabilizerTerminates
+import DSymVerif.Proofs.StabilizerInjective
 
 namespace DSymVerif.C13
 open DSymVerif DSymVerif.SpecC11 DSymVerif.SpecC13 DSymVerif.StabP DSymVerif.CosetP DSymVerif.Cosets
@@ -274,6 +277,30 @@ theorem core_spec (t : Tab) (n : Nat) (hc : complete t n = true) (hi : inverseCo
       rw [← hw]
       exact List.mem_of_getElem? h0
 
+/-- ✔ `intersection_model_words`: in the table `T` the model of `intersection_table` returns, a
+    word over the letters fixes row 0 iff it fixes row 0 of both inputs — the intersection
+    sentence of the property, for the model, for all inputs and all words. -/
+theorem intersection_model_words (ta tb : Tab) (n : Nat)
+    (hca : complete ta n = true) (hcb : complete tb n = true)
+    (hia : inverseConsistent ta n = true) (hib : inverseConsistent tb n = true) (T : Table)
+    (h : Stab.intersectionTable (Table.ofView n ta) (Table.ofView n tb) = .ok T)
+    (w : List Int) (hw : ∀ g ∈ w, g ∈ letters n) :
+    traceT T 0 w = some 0 ↔ traceWord ta n 0 w = some 0 ∧ traceWord tb n 0 w = some 0 := by
+  obtain ⟨lab, _, _, _, h0, hnd, _, hent⟩ :=
+    intersectionTable_spec hca hcb (inverseConsistent_spec hia) (inverseConsistent_spec hib) h
+  rw [labelled_traceT_fix hnd h0 hent w hw, iterAct_pair]
+
+/-- ✔ `core_model_words`: in the table `T` the model of `core_table` returns, a word over the
+    letters fixes row 0 iff it fixes every row of the input — the core sentence of the property,
+    for the model, for all inputs and all words (`core_spec` adds that the rows of `T` are the
+    elements of the permutation group generated by the action). -/
+theorem core_model_words (t : Tab) (n : Nat) (hc : complete t n = true) (hi : inverseConsistent t n = true)
+    (T : Table) (h : Stab.coreTable (Table.ofView n t) = .ok T)
+    (w : List Int) (hw : ∀ g ∈ w, g ∈ letters n) :
+    traceT T 0 w = some 0 ↔ ∀ c, c < t.size → traceWord t n c w = some c := by
+  obtain ⟨lab, _, _, _, h0, hnd, _, hent⟩ := coreTable_spec hc (inverseConsistent_spec hi) h
+  rw [labelled_traceT_fix hnd h0 hent w hw, iterAct_tuple_range]
+
 /-- ✔ `stabilizer_gens_fix_base`.  On a complete, inverse-consistent table every generator the
     model of `stabilizer` returns (Schreier form `w_x · g · w_y⁻¹` with `x·g = y`, freely
     reduced), traced from the base row, returns to it — for every base row, every relator
@@ -317,6 +344,25 @@ theorem stabilizer_relators_hold (t : Tab) (n : Nat) (rels : List (List Int))
       f.range = (MulAction.stabilizer (Equiv.Perm (Fin t.size)) (⟨base, hb⟩ : Fin t.size)).comap
         (actionHom (valid_of_validTable hvalid)) :=
   presentation_hom (complete_of_validTable hvalid) (valid_of_validTable hvalid) hb h
+
+/-- ✔ `stabilizer_presentation_iso`.  The homomorphism of `stabilizer_relators_hold` is
+    **injective**: the presented group `⟨gens | srels⟩` returned by the model of `stabilizer` is
+    isomorphic to the stabiliser of the base row (Reidemeister–Schreier for the code's
+    relator-driven elimination).  Proof: `G` acts on `rows × P`, `P = ⟨gens | srels⟩`, by
+    `(x, p)·g = (x·g, p·W(x,g))` with `W(x,g)` the final edge word read in `P`; this respects the
+    relators of `G` because every traced relator cycle is (a rotation or inverse of) a returned
+    relator; the `k`-th generator word moves `(base, p)` to `(base, p·k)`, so an element of `P`
+    with trivial image is trivial. -/
+theorem stabilizer_presentation_iso (t : Tab) (n : Nat) (rels : List (List Int))
+    (hvalid : validTable t n rels [] = true) (base : Nat) (hb : base < t.size)
+    (gens srels : List (List Int))
+    (h : Stab.stabilizer base rels (Table.ofView n t) = .ok (gens, srels)) :
+    ∃ f : PresentedGroup (relSet gens.length srels) →* PresentedGroup (relSet n rels),
+      (∀ i : Fin gens.length, f (PresentedGroup.of i) = PresentedGroup.mk (relSet n rels) (wordElt n gens[i])) ∧
+      f.range = (MulAction.stabilizer (Equiv.Perm (Fin t.size)) (⟨base, hb⟩ : Fin t.size)).comap
+        (actionHom (valid_of_validTable hvalid)) ∧
+      Function.Injective f :=
+  presentation_iso (complete_of_validTable hvalid) (valid_of_validTable hvalid) hb h
 
 /-- ✔ `stabilizer_total`.  On every table passing the Spec of C11 and every base row that is a row,
     the model of `stabilizer` (after the repairs D13/D14) returns a result: no modelled panic
